@@ -134,18 +134,13 @@ theorem fixOne_plain {s : Stmt} (hk : (s.operand.kind == .relative) = false) (hv
 theorem sumSizes_self (ss : List Stmt) (i : Nat) : sumSizes ss i i = (0, 0) := by
   simp [sumSizes]
 
-/-- the size loop on a PCR statement whose offset expression names the statement itself and has no constant:
-the 8-bit form is chosen -/
-theorem determine_self {ss : List Stmt} {i : Nat} {s s' : Stmt} {c0 c1 : Nat} (hch : s.pkg.choices = [c0, c1])
-    (hf : exprForces s.pkg.additional = false) (hr : relIndex s.pkg.additional = some i) (hlen : i ≤ ss.length)
-    (hx : exprExtra s.pkg.additional = 0) (hset : settle s 1 2 c0 = some s') : determine ss i s = .ok s' := by
+/-- the size loop on a PCR statement whose offset expression combines a label with something that is not a
+number: the 16-bit form is taken at once (since fix 0293787) -/
+theorem determine_forced {ss : List Stmt} {i : Nat} {s s' : Stmt} {c0 c1 : Nat} (hch : s.pkg.choices = [c0, c1])
+    (hf : exprForces s.pkg.additional = true) (hset : settle s 2 4 c1 = some s') : determine ss i s = .ok s' := by
   unfold determine
   rw [hch]
-  simp only [hf, Bool.false_eq_true, if_false, hr]
-  have h1 : ¬ i > ss.length := by omega
-  have h2 : ¬ i < i := by omega
-  simp only [h1, if_false, h2, sumSizes_self, hx, hset]
-  simp
+  simp only [hf, if_true, hset]
 
 /-- the shape of the offset expression of the witness: `X - FAR` with `X` neither a number nor an address and
 `FAR` the statement of index `k` -/
@@ -244,9 +239,9 @@ theorem list_two {α} (d : α) : ∀ (l : List α), l.length = 2 → l = [l.head
 
 theorem tail2_eq : tail2 = [far2, x2] := list_two default tail2 (by decide +kernel)
 
-/-- `LEAX X-FAR,PCR` after the size loop: the 8-bit form -/
-def far3 : Stmt := getO (settle far2 1 2 0x8C)
-theorem far3_spec : settle far2 1 2 0x8C = some far3 := getO_spec (by decide +kernel)
+/-- `LEAX X-FAR,PCR` after the size loop: the 16-bit form -/
+def far3 : Stmt := getO (settle far2 2 4 0x8D)
+theorem far3_spec : settle far2 2 4 0x8D = some far3 := getO_spec (by decide +kernel)
 
 def tail4 : List Stmt := getOut (assignAddrs [far3, x2] 0)
 theorem tail4_spec : assignAddrs [far3, x2] 0 = .ok tail4 := getOut_spec (by decide +kernel)
@@ -260,15 +255,15 @@ theorem huge_facts0 :
 
 theorem huge_facts2 :
     org2.fixedSize = true ∧ x2.fixedSize = true ∧ far2.fixedSize = false ∧ far2.pkg.choices = [0x8C, 0x8D] ∧
-    exprForces far2.pkg.additional = false ∧ relIndex far2.pkg.additional = some 70000 ∧
+    exprForces far2.pkg.additional = true ∧ relIndex far2.pkg.additional = some 70000 ∧
     exprExtra far2.pkg.additional = 0 ∧
     org2.pkg.address.isNone = false ∧ org2.pkg.address.int? = some 0 ∧ org2.pkg.size = 0 := by decide +kernel
 
 theorem huge_facts4 :
     (org2.operand.kind == .relative) = false ∧ org2.operand.value.isNumeric = true ∧ org2.pkg.needsRes = false ∧
     far4.operand.kind = .indexed ∧ far4.operand.value.isLeftRight = true ∧ far4.pkg.needsRes = true ∧
-    selfMinus 70000 far4.pkg.additional = true ∧ far4.pkg.address.int? = some 0 ∧ far4.pcrHint = 2 ∧
-    far4.pkg.size = 3 := by decide +kernel
+    selfMinus 70000 far4.pkg.additional = true ∧ far4.pkg.address.int? = some 0 ∧ far4.pcrHint = 4 ∧
+    far4.pkg.size = 4 := by decide +kernel
 
 /-! ### the whole program -/
 
@@ -282,7 +277,7 @@ theorem huge_getElem_n {n : Nat} {a b c : Stmt} : (List.replicate n a ++ [b, c])
 theorem huge_getElem_n1 {n : Nat} {a b c : Stmt} : (List.replicate n a ++ [b, c])[n + 1]? = some c := by
   rw [List.getElem?_append_right (by simp)]; simp
 
-/-- the PCR size loop on the witness: one pass, `LEAX X-FAR,PCR` gets the 8-bit form -/
+/-- the PCR size loop on the witness: one pass, `LEAX X-FAR,PCR` gets the 16-bit form -/
 theorem huge_pcr (n : Nat) (hn : n = 70000) :
     pcrLoop ((List.replicate n org2 ++ tail2).length + 1) (List.replicate n org2 ++ tail2) =
       .ok (List.replicate n org2 ++ [far3, x2]) := by
@@ -293,7 +288,7 @@ theorem huge_pcr (n : Nat) (hn : n = 70000) :
   have hnf : allFixed (List.replicate n org2 ++ [far2, x2]) = false := by
     simp [allFixed, List.all_append, f3]
   have hdet : determine (List.replicate n org2 ++ [far2, x2]) n far2 = .ok far3 :=
-    determine_self f4 f5 (by rw [hn]; exact f6) (by rw [hlen]; omega) f7 far3_spec
+    determine_forced f4 f5 far3_spec
   have hset : (List.replicate n org2 ++ [far2, x2]).set n far3 = List.replicate n org2 ++ [far3, x2] := by
     rw [List.set_append_right n far3 (by simp)]; simp
   have hf3 : far3.fixedSize = true := settle_fixedSize far3_spec
